@@ -107,6 +107,7 @@ def run(prop, tier, seed, **kw):
     if tier == "quick":
         rnd.shuffle(filters)
         filters = filters[:700]
+    filters += [f for f in queryfam.wide_filters() if f not in filters]
     pairs = narrowings(filters, rnd, 500 if tier == "quick" else 6000)
     # time-only filters whose bounds are stored timestamps, narrowed by one condition: the bare window is served by the
     # created_at range scan, the narrowed one by an index scan - their treatment of the bounds must not make g exceed f
@@ -117,10 +118,14 @@ def run(prop, tier, seed, **kw):
             pairs.append((dict(tm), dict(tm, **cond)))
     # every filter that takes part in a pair or a union must be answered
     multi = [f for f in filters if any(len(f.get(k, [])) > 1 for k in ("ids", "authors", "kinds")) or any(len(v) > 1 for v in f.get("tags", {}).values())]
+    # (the wide filters first: their unions are over the tag values)
+    multi.sort(key=lambda f: 0 if len(f.get("kinds", [])) >= 6 else 1)
     unions = []
     extra = []
     for f in multi[: (150 if tier == "quick" else 2000)]:
         fld = next((k for k in ("ids", "authors", "kinds") if len(f.get(k, [])) > 1), None)
+        if len(f.get("kinds", [])) >= 6 and any(len(v) > 1 for v in f.get("tags", {}).values()):
+            fld = None          # a wide filter: the union is over the values of its multi-value tag condition
         if fld:
             parts = [dict(f, **{fld: [v]}) for v in f[fld]]
         else:
